@@ -217,4 +217,10 @@ static inline int spec_prefix_value(vstr s)
     __CPROVER_ensures((!spec_is_prefix(in) && in.n != 0 && !(spec_int(in) && spec_fits_int(in))) ==> (ok == NULL || !*ok)) \
     __CPROVER_assigns(__exc; ok != NULL: *ok)
 
+
+/* Units::addUnit(reference, prefix, ...): a prefix that is integer text with value 0 is dropped;
+ * EVERY other text - in particular text that is not an integer - is stored as given, so that the
+ * validator can report it ("rejected text is reported as an issue"); nothing escapes.          */
+#define SPEC_PREFIX_DROPPED(p) (spec_int(p) && spec_fits_int(p) && spec_value_int(p) == 0)
+
 #endif
